@@ -308,22 +308,7 @@ pub fn run_scenario(sc: &'static Scenario, opts: RunnerOpts) -> (Value, i32) {
         let original_events = run.events.len();
         let (min_run, vmin, execs) = minimise(sc, &run, v0, &known);
         let path = format!("{}/{}-{}-{}-{}.json", opts.replay_dir, sc.property, this_set(), opts.verif_seed, i);
-        let file = json!({
-            "v": 1,
-            "property": sc.property,
-            "set": this_set(),
-            "verif_seed": opts.verif_seed,
-            "run_index": i,
-            "clause": vmin.clause,
-            "expected": vmin.expected,
-            "observed": vmin.observed,
-            "facts": vmin.facts,
-            "violating_event": vmin.event,
-            "original_events": original_events,
-            "minimised_events": min_run.events.len(),
-            "minimisation_executions": execs,
-            "run": min_run,
-        });
+        let file = replay_doc(sc.property, opts.verif_seed, *i, &vmin, original_events, &min_run, execs, "in-process");
         if let Err(e) = std::fs::write(&path, serde_json::to_string_pretty(&file).unwrap()) {
             eprintln!("harness: cannot write {}: {}", path, e);
             std::process::exit(2);
@@ -381,19 +366,50 @@ fn still_fails(sc: &Scenario, run: &Run, target: &Violation, known: &[KnownEntry
     j.violations.into_iter().find(|v| v.clause == target.clause && known_index(known, v).is_none())
 }
 
+/// The same question answered by a fresh process (`paseto-sim judge <file> <clause>`): used when the code
+/// under test keeps process-wide state, so that candidates accepted in-process might not reproduce.
+fn still_fails_isolated(sc: &Scenario, run: &Run, target: &Violation, known_path: &str, execs: &mut u64) -> Option<Violation> {
+    *execs += 1;
+    let tmp = std::env::temp_dir().join(format!("paseto-sim-cand-{}-{}.json", std::process::id(), *execs));
+    let doc = json!({"property": sc.property, "clause": target.clause, "run": run});
+    if std::fs::write(&tmp, serde_json::to_string(&doc).unwrap()).is_err() {
+        return None;
+    }
+    let exe = std::env::current_exe().ok()?;
+    let out = std::process::Command::new(exe).arg("judge").arg(&tmp).arg("--known").arg(known_path).output().ok();
+    let _ = std::fs::remove_file(&tmp);
+    let out = out?;
+    if out.status.code() == Some(1) {
+        let text = String::from_utf8_lossy(&out.stdout);
+        let v: Option<Violation> = text.lines().rev().find_map(|l| serde_json::from_str::<Violation>(l).ok());
+        v.or_else(|| Some(target.clone()))
+    } else {
+        None
+    }
+}
+
 pub fn minimise(sc: &Scenario, run: &Run, target: &Violation, known: &[KnownEntry]) -> (Run, Violation, u64) {
+    minimise_with(run, target, 4000, &mut |r, execs| still_fails(sc, r, target, known, execs))
+}
+
+pub fn minimise_isolated(sc: &Scenario, run: &Run, target: &Violation, known_path: &str) -> Option<(Run, Violation, u64)> {
+    let mut execs = 0u64;
+    still_fails_isolated(sc, run, target, known_path, &mut execs)?;
+    Some(minimise_with(run, target, 500, &mut |r, execs| still_fails_isolated(sc, r, target, known_path, execs)))
+}
+
+fn minimise_with(run: &Run, target: &Violation, budget: u64, check: &mut dyn FnMut(&Run, &mut u64) -> Option<Violation>) -> (Run, Violation, u64) {
     let mut execs = 0u64;
     let mut best = run.clone();
-    let mut bestv = match still_fails(sc, &best, target, known, &mut execs) {
+    let mut bestv = match check(&best, &mut execs) {
         Some(v) => v,
         None => return (best, target.clone(), execs),
     };
-    let budget = 4000u64;
     // 1. cut everything after the violating event
     if bestv.event + 1 < best.events.len() {
         let mut c = best.clone();
         c.events.truncate(bestv.event + 1);
-        if let Some(v) = still_fails(sc, &c, target, known, &mut execs) {
+        if let Some(v) = check(&c, &mut execs) {
             best = c;
             bestv = v;
         }
@@ -407,7 +423,7 @@ pub fn minimise(sc: &Scenario, run: &Run, target: &Violation, known: &[KnownEntr
             let end = (i + chunk).min(best.events.len());
             let mut c = best.clone();
             c.events.drain(i..end);
-            if let Some(v) = still_fails(sc, &c, target, known, &mut execs) {
+            if let Some(v) = check(&c, &mut execs) {
                 best = c;
                 bestv = v;
                 progressed = true;
@@ -435,7 +451,7 @@ pub fn minimise(sc: &Scenario, run: &Run, target: &Violation, known: &[KnownEntr
                 }
                 let mut c = best.clone();
                 c.events[i] = cand;
-                if let Some(v) = still_fails(sc, &c, target, known, &mut execs) {
+                if let Some(v) = check(&c, &mut execs) {
                     best = c;
                     bestv = v;
                     changed = true;
@@ -444,7 +460,6 @@ pub fn minimise(sc: &Scenario, run: &Run, target: &Violation, known: &[KnownEntr
             }
         }
     }
-    // 4. drop unused keys is not attempted (indices are referenced); done.
     (best, bestv, execs)
 }
 
@@ -674,6 +689,87 @@ fn shrink_event(op: &Op) -> Vec<Op> {
         _ => {}
     }
     out
+}
+
+pub fn replay_doc(property: &str, seed: u64, run_index: u64, v: &Violation, original_events: usize, run: &Run, execs: u64, how: &str) -> Value {
+    json!({
+        "v": 1,
+        "property": property,
+        "set": this_set(),
+        "verif_seed": seed,
+        "run_index": run_index,
+        "clause": v.clause,
+        "expected": v.expected,
+        "observed": v.observed,
+        "facts": v.facts,
+        "violating_event": v.event,
+        "original_events": original_events,
+        "minimised_events": run.events.len(),
+        "minimisation_executions": execs,
+        "minimisation": how,
+        "run": run,
+    })
+}
+
+/// `paseto-sim judge <file>`: exit 1 (and the violation as a JSON line) iff the run in the file violates
+/// the clause named in it (known findings excluded).
+pub fn judge_file(sc_lookup: fn(&str) -> Option<&'static Scenario>, path: &str, known_path: &str) -> i32 {
+    let v: Value = match std::fs::read_to_string(path).ok().and_then(|t| serde_json::from_str(&t).ok()) {
+        Some(v) => v,
+        None => return 2,
+    };
+    let run: Run = match serde_json::from_value(v["run"].clone()) {
+        Ok(r) => r,
+        Err(_) => return 2,
+    };
+    let sc = match sc_lookup(v["property"].as_str().unwrap_or("")) {
+        Some(s) => s,
+        None => return 2,
+    };
+    let clause = v["clause"].as_str().unwrap_or("");
+    let known = load_known(known_path);
+    env::install();
+    let j = exec_and_judge(sc, &run);
+    env::uninstall();
+    match j.violations.into_iter().find(|x| x.clause == clause && known_index(&known, x).is_none()) {
+        Some(x) => {
+            println!("{}", serde_json::to_string(&x).unwrap());
+            1
+        }
+        None => 0,
+    }
+}
+
+/// `paseto-sim reminimise`: regenerate run `index`, confirm the violation in this fresh process, minimise
+/// with every candidate judged by a fresh process, write the replay file.
+#[allow(clippy::too_many_arguments)]
+pub fn reminimise(sc: &'static Scenario, ctx: &GenCtx, index: u64, clause: &str, known_path: &str, out: &str) -> i32 {
+    let run = match (sc.gen)(ctx, index) {
+        Some(r) => r,
+        None => return 2,
+    };
+    let known = load_known(known_path);
+    env::install();
+    let j = exec_and_judge(sc, &run);
+    env::uninstall();
+    let target = match j.violations.into_iter().find(|x| x.clause == clause && known_index(&known, x).is_none()) {
+        Some(t) => t,
+        None => {
+            println!("NOT-REPRODUCED original run {} does not violate {} in a fresh process", index, clause);
+            return 3;
+        }
+    };
+    let original = run.events.len();
+    let (min_run, vmin, execs) = match minimise_isolated(sc, &run, &target, known_path) {
+        Some(x) => x,
+        None => (run.clone(), target.clone(), 0),
+    };
+    let doc = replay_doc(sc.property, ctx.verif_seed, index, &vmin, original, &min_run, execs, "isolated (every candidate judged by a fresh process)");
+    if std::fs::write(out, serde_json::to_string_pretty(&doc).unwrap()).is_err() {
+        return 2;
+    }
+    println!("REMINIMISED {} events -> {} ({} fresh-process executions)", original, min_run.events.len(), execs);
+    0
 }
 
 // -------------------------------------------------------------------------------------------------
